@@ -24,6 +24,7 @@ MANIFEST = dict(
           "Type-exhaustively: move with a non-Vector on all seven types; unsupported operand pairs of intersection, distance, angle, parallel, orthogonal and volume raise NotImplementedError/ValueError/TypeError and never return."),
     note=("Polygon-level and polyhedron-level rejections (fewer than three distinct vertices, all vertices collinear, a vertex off the plane, face sets that are not closed, coplanar parallelepiped vectors, the collinear-points helper) are decided by "
           "enumeration over concrete instances in lattice positions and oblique poses - a labelled bounded part of this check. A1, A5."),
+    technique='contract-based deductive verification of exceptional postconditions (every path of the constructor on a degenerate input raises; z3) + native enumeration of polygon / polyhedron rejections in oblique poses',
     design_ref="DESIGN.md section 9 (C15)",
 )
 EXPLANATION = "raises-contracts: every path of the constructor on a degenerate input ends in an exception"
